@@ -135,7 +135,7 @@ def typed_value(t, text):
     return text
 
 
-def gen_line(r, chain, extra_rest=0):
+def gen_line(r, chain, extra_rest=0, fill_all=False):
     """Canonical command line for the command at the end of ``chain`` (one spelling per option).
     Returns (tokens_after_path, expected_arguments, expected_options_set)."""
     opts = []
@@ -171,7 +171,7 @@ def gen_line(r, chain, extra_rest=0):
             if vals:
                 exp_args[name] = vals
                 pos.extend(vals)
-        elif flags & F.A_REQ or r.chance(0.6):
+        elif flags & F.A_REQ or fill_all or r.chance(0.6):
             v = r.pick(TYPED[t])
             if v.startswith("-"):
                 v = v[1:]
@@ -226,6 +226,8 @@ class Actor(object):
             elif k == "ask":
                 from clikit.ui.components import ConfirmationQuestion
                 rec["answers"].append(ConfirmationQuestion("Proceed?", st[1]).ask(io))
+            elif k == "readline":
+                rec.setdefault("lines", []).append(io.read_line(default=st[1]))
             elif k == "deep":
                 r = self._deep(st[1], st[2], args, io, rec)
                 if r is not _NOTHING:
